@@ -147,6 +147,15 @@ impl Pool {
         // table to track the schema of its own table(s).
         const DB_SCHEMA_KEY: &str = "pool";
 
+        /* Creating or upgrading the tables and recording the resulting version has to be one
+         * atomic step: if we die in between, the next start would see the new tables under the
+         * old (or no) version and try to apply the upgrade again.
+         */
+        let transaction = self
+            .conn
+            .unchecked_transaction()
+            .map_err(|e| Error::emit("Starting schema transaction", &e))?;
+
         self.conn
             .execute(
                 "CREATE TABLE IF NOT EXISTS schema_version (
@@ -188,6 +197,9 @@ impl Pool {
                 )
                 .map_err(|e| Error::emit("Creating updating schema version", &e))?;
         }
+        transaction
+            .commit()
+            .map_err(|e| Error::emit("Committing schema transaction", &e))?;
         Ok(self)
     }
 
